@@ -1024,6 +1024,7 @@ Proof.
   split; [exact Hm|]. split; [vm_compute; reflexivity|]. split; [exact Hnk|].
   intros s [<-|[]]; vm_compute; reflexivity.
 Qed.
+Print Assumptions m_start.
 
 Example C06_crash_during_import_instance :
   (forall b1 b2, In b1 m_U -> In b2 m_U -> b_id b1 = b_id b2 -> b1 = b2) /\
